@@ -1,18 +1,19 @@
-"""C05 -- presentation changes do not change what is detected.  M: relational invariants on V2Tokenizer (Recase, Respace, Decorate, Typographic, BlankLine).  G: tokenizer replay.  T: transformations of real documents, TraceV2 Pair."""
+"""C05 -- presentation changes do not change what is detected.  M: relational invariants on V2Tokenizer (Recase, Respace, Decorate, Typographic, BlankLine, TailLine).  G: tokenizer replay.  T: transformations of real documents, TraceV2 Pair."""
 import time
 from lib import vlib
 from checks.v2common import Acc, trace_leg, tok_model, tok_replay
 PID = "C05"
 def run():
     t0 = time.time(); v = vlib.Verdict(PID); acc = Acc(); th = vlib.TIER == "thorough"
-    tok_model(acc, ["A"], 6 if th else 5, invariants=["Recase", "Respace", "Decorate", "BlankLine"])
+    tok_model(acc, ["A"], 6 if th else 5, invariants=["Recase", "Respace", "Decorate", "BlankLine", "TailLine"])
     tok_model(acc, ["B"], 5 if th else 4)
-    tok_replay(v, acc, ["A", "B"], 6 if th else 5)
+    tok_model(acc, ["H"], 6 if th else 5)       # line numbers after hyphenated words (TailLine, BlankLine)
+    tok_replay(v, acc, ["A", "B", "H"], 6 if th else 5)
     recs, lines = trace_leg(v, acc, "c05", [PID])
     ps = [r for r in lines if r.get("ev") == "pair"]
     acc.nontrivial += len({(r["label"], r["kind"]) for r in ps})
     acc.extra["pairs"] = len(ps)
     rc = v.finish()
-    vlib.write_evidence(PID, acc.coverage("M/G: every input <= MaxLen over alphabets A (words, case, digits, blanks, newline, hyphen, header punctuation) and B (tabs, CR, decoration, dashes, quotes); T: corpus documents in context, edited texts, scenario files x 17 transformation kinds + compositions; exempt zone = hyphen-ended line through the next non-blank line", exhaustive=True),
+    vlib.write_evidence(PID, acc.coverage("M/G: every input <= MaxLen over alphabets A (words, case, digits, blanks, newline, hyphen, header punctuation) B (tabs, CR, decoration, dashes, quotes) and H (hyphen-ended lines as chunks); T: corpus documents in context, edited texts, scenario files x 17 transformation kinds + compositions; exempt zone = hyphen-ended line through the next non-blank line", exhaustive=True),
         ["letters inside HTML character references are not re-cased (&nbsp; is case sensitive)", "TotalInputLines is not compared (the statement does not mention it)"], time.time() - t0, len(v.violations))
     return rc
